@@ -24,9 +24,9 @@ def assist(project, source, position, filename=None, debug=False):
     ctx = EvalCtx(project)
     ln, col = position
     line = source.lines[ln - 1][:col]
-    if line.lstrip().startswith('from ') and ' import ' not in line:
-        iname = line.rpartition(' ')[2]
-        package, sep, prefix = iname.rpartition('.')
+    from_module = re.match(r'\s*from\s+([\w.]*)$', line)
+    if from_module:
+        package, sep, prefix = from_module.group(1).rpartition('.')
         if (not package or package.startswith('.')) and sep:
             package += '.'
         return prefix, list_packages(project, package, filename)
